@@ -7,3 +7,5 @@ import MW.Props.C08
 #print axioms MW.Props.C08.withdraw_own
 #print axioms MW.Props.C08.former_admin_powerless
 #print axioms MW.Props.C08.failed_tx_changes_nothing
+#print axioms MW.Props.C08.success_was_authorized
+#print axioms MW.Props.C08.unauthorized_tx_without_effect
